@@ -4,8 +4,8 @@ SPEC = {
     "gen": [],
     "streams": [
         {"name": "sched", "cmd": "sched",
-         "args": {"quick": ["-cases", "250"], "thorough": ["-cases", "6000"]},
-         "search_args": ["-cases", "1500"]},
+         "args": {"quick": ["-cases", "130"], "thorough": ["-cases", "3000"]},
+         "search_args": ["-cases", "700"]},
     ],
     "trusted_base": [
         "Coq 8.16.1 kernel (coqc; coqchk in the thorough tier); no native_compute",
